@@ -149,6 +149,9 @@ func refConn(calls []callKind) (frames []interface{}, log []string) {
 						emit(map[string]interface{}{"continues": true, "parameters": map[string]interface{}{"c": float64(n)}})
 					}
 				}
+			case 'T':
+				log = append(log, "T")
+				ended = true
 			case 'X':
 				log = append(log, "X")
 				ended = true
@@ -316,7 +319,7 @@ func jsonEqual(a, b interface{}) bool {
 }
 
 var c01Flags = []string{"", "oneway", "more", "upgrade", "more+oneway"}
-var c01Scripts = []string{"R", "CR", "CCR", "E", "NR", "OR", "Z", "X", "RX", "CX", "KE", "KM", "KNE", "PR", "QR", "DR"}
+var c01Scripts = []string{"R", "CR", "CCR", "E", "NR", "OR", "Z", "X", "RX", "CX", "KE", "KM", "KNE", "PR", "QR", "DR", "TR"}
 
 func c01Kinds() []callKind {
 	var ks []callKind
